@@ -38,6 +38,16 @@ ASSUMPTIONS = [
 ]
 TRIVIAL_TAGS = []
 
+def pregen():
+    """regenerate coq/theories/Gen/OpAssignArms.v from the current Rust source (translators/opassign_arms.py): the arm
+    obligations of Props/C05.v (theorems 12-15) are stated over that table"""
+    import os, sys
+    from vlib import core
+    sys.path.insert(0, os.path.join(core.ROOT, "translators"))
+    import armlib
+    return armlib.pregen(PROP, [("opassign_arms", "theories/Proofs/OpAssignArmsP.vo")])
+
+
 NAMES_POOL = ["a", "b", "c", "d", "g", "h", "k", "m", "n", "p", "q", "s", "t", "u", "v", "w", "x", "y", "z"]
 FIELDS = ["fa", "fb", "fc"]
 
